@@ -1,6 +1,8 @@
 package scen
 
 import (
+	"time"
+
 	"encoding/json"
 	"fmt"
 	"strings"
@@ -108,6 +110,9 @@ func q17GenesisBuild() []*explore.Action {
 		Msg("seed:add-class-creator B", &basetypes.MsgAddClassCreator{Authority: G.String(), Creator: b}),
 		Msg("seed:basket NCT", &baskettypes.MsgCreate{Curator: a, Name: "NCT", DisableAutoRetire: true, CreditTypeAbbrev: "C", AllowedClasses: []string{"C01", "C02"}, Fee: sdk.NewCoins(coin("uregen", 10))}),
 		Msg("seed:basket RCT", &baskettypes.MsgCreate{Curator: b, Name: "RCT", DisableAutoRetire: true, CreditTypeAbbrev: "C", AllowedClasses: []string{"C01"}, Fee: sdk.NewCoins(coin("uregen", 10))}),
+		// a basket WITH date criteria, listed before the criteria-less baskets created during the exploration
+		Msg("seed:basket ACT", &baskettypes.MsgCreate{Curator: a, Name: "ACT", DisableAutoRetire: true, CreditTypeAbbrev: "C", AllowedClasses: []string{"C01"},
+			DateCriteria: &baskettypes.DateCriteria{MinStartDate: gts(date(2019, 6, 1))}, Fee: sdk.NewCoins(coin("uregen", 10))}),
 		Put(B, NCT, BC("C01-001-20200101-20210101-001", "2")),
 		Put(B, NCT, BC("C02-001-20200101-20210101-001", "1")),
 		Put(C, RCT, BC("C01-002-20200101-20210101-001", "1")),
@@ -288,6 +293,20 @@ func Queries() Spec {
 		}}
 	}
 	add(bsk(A, "BSK"), bsk(B, "BSK2"))
+	// criteria set on / cleared from the FIRST basket of the listing (its neighbours have none)
+	add(E{Name: "UpdateDateCriteria(G,basket#0,window=400d)", Make: func(pre *chain.Snapshot) *explore.Action {
+		bd := q17kthBasket(pre, 0)
+		if bd == "" {
+			return nil
+		}
+		return dateCrit("window=400d", bd, G, &baskettypes.DateCriteria{StartDateWindow: gdur(400 * 24 * time.Hour)})
+	}}, E{Name: "UpdateDateCriteria(G,basket#-1,none)", Make: func(pre *chain.Snapshot) *explore.Action {
+		bd := q17kthBasket(pre, -1)
+		if bd == "" {
+			return nil
+		}
+		return dateCrit("none", bd, G, nil)
+	}})
 	put := func(s sdk.AccAddress, bk, k int) E {
 		name := fmt.Sprintf("Put(%s,basket#%d,batch#%d)", n(s), bk, k)
 		return E{Name: name, Make: func(pre *chain.Snapshot) *explore.Action {
@@ -337,5 +356,5 @@ func Queries() Spec {
 		exp[e.Name] = true
 	}
 	return Spec{Name: "queries", Seeds: []explore.Seed{prepared, fresh, prefix, weak}, Events: evs,
-		DepthQuick: 2, DepthThor: 3, ExpectFail: exp, MinStates: 40}
+		DepthQuick: 3, DepthThor: 4, ExpectFail: exp, MinStates: 40}
 }
